@@ -62,11 +62,17 @@ func (b *siteBuilder) pick(label string, n int) int { return rapid.IntRange(0, n
 func (b *siteBuilder) failing(r *Res) *Res {
 	switch b.pick("fail", 10) {
 	case 0:
-		r.FailFirst, r.FailKind = -1, []int{500, 503, 429, 0, 502, 408}[b.pick("failkind", 6)]
+		r.FailFirst, r.FailKind = -1, []int{500, 503, 429, 0, 502, 408, 0}[b.pick("failkind", 7)]
 		b.feat["always-failing"] = true
+		if r.FailKind == 0 {
+			r.ErrKind = b.pick("errkind", len(transportErrors))
+		}
 	case 1:
-		r.FailFirst, r.FailKind = 1+b.pick("failn", 3), []int{500, 503, 429, 0}[b.pick("failkind", 4)]
+		r.FailFirst, r.FailKind = 1+b.pick("failn", 3), []int{500, 503, 429, 0, 0}[b.pick("failkind", 5)]
 		b.feat["fail-then-ok"] = true
+		if r.FailKind == 0 {
+			r.ErrKind = b.pick("errkind", len(transportErrors))
+		}
 	case 2:
 		if r.Kind != "redirect" && r.Kind != "status" {
 			r.BodyErr = true
